@@ -230,7 +230,7 @@ class C18(Check):
                               [3 if not isreg else 1, 3, 3, 3, 1, 1, 0.3, 0.5, 1, 0.2])[0]
                 data = {
                     "registration": lambda: p2p_cmd(0x10, w), "dmr": lambda: p2p_cmd(0x11, w), "rdac": lambda: p2p_cmd(0x12, w),
-                    "ping": lambda: p2p_ping(w), "ack": lambda: bytes(4) + ACK + bytes(12), "unknown": lambda: p2p_cmd(w.choice([0x00, 0x13, 0x44, 0xFF]), w),
+                    "ping": lambda: p2p_ping(w), "ack": lambda: bytes(4) + ACK + bytes(12), "unknown": lambda: p2p_cmd(w.choice([0x00, 0x13, 0x44, 0xFF, 0x0D, 0x0E, 0x0F, 0x14, 0x20, 0x90, 0x91, 0x92, w.randrange(256)]), w),  # (neighbours and aliases of 0x10..0x12 included)
                     "reg255": lambda: p2p_cmd(w.choice([0x10, 0x11, 0x12]), w, rid=255), "pingshort": lambda: p2p_ping(w, n=w.randrange(9, 15)),
                     "garbage": lambda: bytes(w.getrandbits(8) for _ in range(w.randrange(1, 40))), "empty": lambda: b"",
                 }[c]()
